@@ -321,13 +321,28 @@ Definition oinit : oworld := {| ob := init; opening := []; late := []; open_errs
 (* alive.  A layer over the base model: a holding = (session index, number of slices) of one       *)
 (* stream (unread received data, pending data, written-but-unflushed data).  The cleanup (base     *)
 (* LLambda) closes every stream of the table it drops; Stream.clean recycles what the stream holds.*)
-(* [recycles] selects the code: true = clean() always recycles (the code that exists); false =     *)
-(* clean() returns early when the session is closed (regression witness: the slices are lost).     *)
+(* A Flush that found the send queue full waits in its retry loop with the outgoing chain still in  *)
+(* the stream's sendBuf: that chain is a holding like any other.  EVERY exit of Flush gives it up:  *)
+(* handed to the peer (put succeeded), or recycled (queue still full, write deadline, stream /      *)
+(* session closed while waiting — the close-notified exit) — PGive.  The close-notified exit is its *)
+(* own label because Session.Close / exitErr notify every stream FIRST and recycle only LATER, in   *)
+(* the posted cleanup: a woken Flush that returned without recycling would leave nothing for the    *)
+(* cleanup to find.                                                                                *)
+(* [pcode] selects the code: clean_recycles = Stream.clean always recycles (false: it returns early *)
+(* when the session is closed); close_exit_recycles = Flush's close-notified exit goes through the  *)
+(* common `buf.recycle()` (false: it returns at once).  code_ok = the code that exists; the other   *)
+(* two are kept as regression witnesses.                                                           *)
 (* ------------------------------------------------------------------------------------------ *)
+Record pcode := { clean_recycles : bool; close_exit_recycles : bool }.
+Definition code_ok : pcode := {| clean_recycles := true; close_exit_recycles := true |}.
+Definition code_early_return_clean : pcode := {| clean_recycles := false; close_exit_recycles := true |}.
+Definition code_flush_returns_on_close : pcode := {| clean_recycles := true; close_exit_recycles := false |}.
+
 Inductive plabel :=
   | PBase (l : label)
   | PTake (i n : nat)      (* a stream of session i comes to hold n slices (data arrived / user wrote) *)
-  | PGive (k : nat).       (* the k-th holding is released the ordinary way (read + release, flush, stream close) *)
+  | PGive (k : nat)        (* the k-th holding is given up the ordinary way (read + release, flush sent or failed, stream close) *)
+  | PFlushClosedExit (k : nat).  (* a Flush parked in the queue-full retry with the k-th holding is woken by closeNotifyCh *)
 
 Record pworld := {
   pb : world;
@@ -346,14 +361,14 @@ Fixpoint drop_nth {A} (k : nat) (l : list A) : list A :=
   | x :: r, S j => x :: drop_nth j r
   end.
 
-Definition pstep (recycles : bool) (w : pworld) (l : plabel) : pworld :=
+Definition pstep (code : pcode) (w : pworld) (l : plabel) : pworld :=
   match l with
   | PBase b =>
       let b' := step (pb w) b in
       let gone := filter (fun x => table_dropped b' (fst x)) (holds w) in
       {| pb := b'; holds := filter (fun x => negb (table_dropped b' (fst x))) (holds w);
          taken := taken w;
-         returned := if recycles then (returned w + total_held gone)%nat else returned w |}
+         returned := if clean_recycles code then (returned w + total_held gone)%nat else returned w |}
   | PTake i n =>
       match nth_error (ss (pb w)) i with
       | Some s => if cleaned s then w     (* a closed stream takes no share memory *)
@@ -365,7 +380,20 @@ Definition pstep (recycles : bool) (w : pworld) (l : plabel) : pworld :=
       | Some (_, n) => {| pb := pb w; holds := drop_nth k (holds w); taken := taken w; returned := (returned w + n)%nat |}
       | None => w
       end
+  | PFlushClosedExit k =>
+      match nth_error (holds w) k with
+      | Some (i, n) =>
+          match nth_error (ss (pb w)) i with
+          | Some s =>
+              if sd s then     (* closeNotifyCh is closed: the session (or the stream) was closed *)
+                {| pb := pb w; holds := drop_nth k (holds w); taken := taken w;
+                   returned := if close_exit_recycles code then (returned w + n)%nat else returned w |}
+              else w
+          | None => w
+          end
+      | None => w
+      end
   end.
 
-Definition prun (recycles : bool) (sch : list plabel) (w : pworld) : pworld := fold_left (pstep recycles) sch w.
+Definition prun (code : pcode) (sch : list plabel) (w : pworld) : pworld := fold_left (pstep code) sch w.
 Definition pinit : pworld := {| pb := init; holds := []; taken := O; returned := O |}.
